@@ -101,6 +101,10 @@ def run(prop, tier, seed, replay=None):
             big.append(dict(id="big-%s-%d" % (shape, rep_i), seed=seed * 1000 + k, shape=shape, size=size,
                             budget=rnd.choice([40, 120, 300]), loss=rnd.choice([0, 2, 6]), dup=rnd.choice([0, 1, 3]),
                             expire=rnd.choice([0, 1, 3]), inject=rnd.choice([0, 2, 4]), create=rnd.choice([0, 2, 5])))
+    # an undecodable difference on the third / fourth page with everything below in sync (page fall-back must walk down one page at a time)
+    for i, (deep, sz) in enumerate([(1040, 700)] if quick else [(1040, 700), (1560, 760), (1030, 900), (2060, 700)]):
+        big.append(dict(id="big-deepwide-%d" % i, seed=seed * 31 + i, shape="deepwide", deep=deep, size=sz, budget=rnd.choice([0, 40]), loss=rnd.choice([0, 2]),
+                        dup=rnd.choice([0, 1]), expire=0, inject=0, create=0))
     for sz in ([150] if quick else [101, 150, 260]):
         big.append(dict(id="burst-%d" % sz, seed=seed, shape="burst", size=sz))
     if not quick:
